@@ -25,6 +25,8 @@ def expected_points(M, dt):
     """(T, kind, k): kind 'integer' (q is the integer k up to rounding), 'noninteger', or
     'undefined' (T None)."""
     q = quotient(M, dt)
+    if q == 0:
+        return 1, "integer", 0      # maturity exactly 0: ceil(0) + 1 = 1 point (the initial state)
     k = math.floor(q + Fraction(1, 2))
     if k >= 1 and abs(q - k) <= 4 * EPS * k:
         return k + 1, "integer", k
